@@ -34,13 +34,13 @@ Theorem C14_staggered_flags : forall p ms v1 v2 s, kd s = KPF ->
   let s' := solve_sim gen_table p ms v1 v2 s in
   updD (pf s') = false /\ updU (pf s') = true /\ option_map k_sol (kU (pf s')) = Some v1 /\
   solD (cf s') = v1 /\ solU (cf s') = v2.
-Proof. intros. apply staggered_flags; auto. exact C14_table_ok. Qed.
+Proof. intros. apply staggered_flags; [exact C14_table_ok | assumption]. Qed.
 Print Assumptions C14_staggered_flags.
 
 Theorem C14_staggered_invalidation : forall s, kd s = KPF ->
   Stale (raise gen_table s) /\
   (forall j v1 v2 m, nth_error (iters (rg s)) j = Some m -> Stale (setiter_sim gen_table j v1 v2 s)).
-Proof. intros. apply staggered_invalidation; auto. exact C14_table_ok. Qed.
+Proof. intros. apply staggered_invalidation; [exact C14_table_ok | assumption]. Qed.
 Print Assumptions C14_staggered_invalidation.
 
 (* non-vacuity: the hypotheses of the theorems are met by concrete runs *)
